@@ -16,6 +16,7 @@
 EXTENDS GaussOracle, IOUtils
 MCRefs1 == {<<1>>, <<2>>, <<1, 1>>}
 MCRefs2 == {<<1>>, <<2>>, <<3>>, <<1, 1>>, <<1, 2>>, <<2, 1>>, <<1, 1, 1>>}
+MCRefsQ == {<<1>>, <<2>>, <<3>>, <<1, 1>>, <<1, 2>>}
 MCTrim2 == {<<1>>, <<2>>, <<1, 1>>}
 MCTrim3 == {<<1>>, <<2>>, <<1, 1>>, <<3>>, <<1, 2>>, <<1, 1, 1>>}
 MCLevels1 == {1}
